@@ -6,9 +6,9 @@ name=seed-$id-$x
 git -C /repo worktree remove --force /tmp/$name 2>/dev/null || true
 rm -rf /tmp/$name /tmp/$name-out
 git -C /repo worktree add -q --detach /tmp/$name HEAD
-python3 - "$ID" "$name" "$x" <<'P'
+python3 - "$ID" "$name" "$x" "${3:-}" <<'P'
 import json,sys
-ID,name,x=sys.argv[1:4]
+ID,name,x,hint=sys.argv[1:5]
 for l in open('/verif/properties.jsonl'):
     o=json.loads(l)
     if o['id']==ID: break
@@ -18,6 +18,8 @@ t=t[:a]+f"{ID}: {o['title']}\n\n{o['statement']}\n\nQuantified over: {o['quantif
 t=t.replace('seed-c16-a',name).replace('"C16"',f'"{ID}"')
 if x!='a':
     t=t.replace("Avoid the most obvious candidates","A different change was already seeded for this property; pick a DIFFERENT part of the property statement (read all its clauses) and a different file if possible. Avoid the most obvious candidates")
+if hint:
+    t=t.replace('Your job:', 'Note: '+hint+'\n\nYour job:',1)
 open(f'/tmp/{name}.prompt.txt','w').write(t)
 P
 echo /tmp/$name.prompt.txt
